@@ -81,3 +81,17 @@ func (l Layout) Segments() [][2]int {
 	}
 	return out
 }
+
+// BlockRanges returns the half-open event index ranges [from,to) that are flushed together into one block.
+func (l Layout) BlockRanges() [][2]int {
+	var out [][2]int
+	start, pos := 0, 0
+	for i, b := range l.Batches {
+		pos += b
+		if l.Flush[i] || l.Rotate[i] || i == len(l.Batches)-1 {
+			out = append(out, [2]int{start, pos})
+			start = pos
+		}
+	}
+	return out
+}
